@@ -1,5 +1,6 @@
 import Log4rsModel.Roller.LemmasHist
 import Log4rsModel.Roller.LemmasName
+import Log4rsModel.Roller.LemmasBg
 /-
 C08 — A failed or interrupted rotation loses no acknowledged data and is recoverable.
 Only property theorems and non-vacuity examples; helpers are in Roller/LemmasCrash.lean.
@@ -274,6 +275,51 @@ example :
     (appendOp (wCfg false) (fun _ => false) false [3] (appendOp (wCfg false) wFault true [2] wState).2).2.disk.get? wFile
       = some [1, 2, 3] := by decide
 end Witness
+
+/-! ### the `background_rotation` feature: a crash between the two phases -/
+
+/-- Inside phase 2 the rotation is as crash-safe as the foreground one — if the temp name is
+counted as the place of the rolled file: after any number of completed steps everything the
+completed rotation retains is readable from the archive names and the temp file. -/
+theorem C08_background_phase2_safe (r : RollerCfg) (tmp : Path) (dec : Bytes → Bytes) (d : Disk)
+    (k : Nat) (hinj : NamesInj r) (hta : FileApart r tmp) (hdec : ∀ x, dec (r.enc x) = x)
+    (hc : r.count ≠ 0) :
+    readBack dec r tmp (crashAfter r tmp k d) <:+ readBack dec r tmp d ∧
+      retain dec r tmp d <:+ readBack dec r tmp (crashAfter r tmp k d) :=
+  crash_sandwich hinj hta dec hdec hc k d
+
+/-- C08's crash clause read for background rotation: after a process death between phase 1 (the
+log file renamed to the temp name, `roll` returned Ok) and the end of phase 2, everything the
+completed rotation would retain is on disk under a name the roller manages or the active path. -/
+def C08_background_crash_statement : Prop :=
+  ∀ (r : RollerCfg) (file tmp : Path) (d : Disk),
+    NamesInj r → FileApart r file → FileApart r tmp → tmp ≠ file → r.count ≠ 0 →
+    r.comp = .none → d.get? tmp = none →
+    retain id r file d <:+ readBack id r file (crashAfterPhase1 file tmp d)
+
+/-- …which is false: the rolled content sits under the temp name, which is neither (finding
+`C08/background-temp-file-stranded`; witness: one archive `[1]`, active file `[2]`). -/
+theorem C08_background_temp_stranded : ¬ C08_background_crash_statement := by
+  intro h
+  have := h (mkRoller id id wPat 0 2) wFile ['t'] ⟨[(name id wPat 0, [1]), (wFile, [2])]⟩
+    (fun i j e => substIdx_decimal_inj wPat (by decide) i j e) (wFileApart true)
+    (by intro i e
+        have : (name id wPat i).length = 1 := by rw [show name id wPat i = ['t'] from e]; rfl
+        simp [name, wPat, substIdx] at this)
+    (by decide) (by decide) rfl (by decide)
+  revert this
+  decide
+
+/-- and it stays there: no later rotation of the same or of a restarted appender — foreground, or
+background at quiescence — ever touches the temp name again; the data is never archived. -/
+theorem C08_background_stranded_forever (r : RollerCfg) (file tmp : Path) (d : Disk) (x : Bytes)
+    (ys : List Bytes) (hg : r.base + r.count ≤ U32_MOD)
+    (hne : tmp ≠ file) (hta : FileApart r tmp) (hx : d.get? file = some x) :
+    (rollMany r file ys (crashAfterPhase1 file tmp d)).get? tmp = some x := by
+  rw [rollMany_frame r file ys hg tmp hne (fun i e => hta i e.symm)]
+  unfold crashAfterPhase1
+  rw [get?_moveFile, hx]
+  simp
 
 /-! ### non-vacuity (tests on samples) -/
 
